@@ -1,7 +1,10 @@
 (** * C01 — linear systems are solved through every entry point.
     Statements only; proofs are in Proofs/C01_Layout.v (routing, layout, rejection: every carrier, arbitrary
-    factorisation routines), Proofs/C01_Chol.v (the fallible Cholesky sweep), Proofs/C01_Pred.v (routing
-    predicates) and Proofs/C01.v (exact arithmetic, factorisation models of property C11 plugged in).
+    factorisation routines), Proofs/C11_Chol.v + Proofs/C01_Chol.v (the fallible Cholesky sweep, shared with
+    property C11), Proofs/C11_Pred.v + Proofs/C01_Pred.v (routing predicates), Proofs/C11_SPD.v + Proofs/C01_SPD.v
+    (completeness) and Proofs/C01.v (exact arithmetic, factorisation models of property C11 plugged in).
+    [try_cholesky], [cholesky], [is_symmetric_rows], [is_positive_definite] are defined once, in
+    Model/Cholesky.v and Model/Subst.v.
 
     Reading guide.  [slice_solve], [slice_solve_sys], [slice_invert], [mat_solve_vec], [mat_solve_mat],
     [mat_inv] ([Model/SolveInst.v]) are the models of [solve], [solve_sys], [invert_matrix],
@@ -100,7 +103,7 @@ Theorem C01_not_pd_goes_lu :
          (try_chol : list T -> option (option (list T))) (chol_solve : list T -> list T -> option (list T))
          (lu : list T -> option (list T * list nat)) (lu_solve : list T -> list nat -> list T -> option (list T))
          (a b : list T),
-    is_pd_pred O a = Some false ->
+    is_positive_definite O a = Some false ->
     solve O try_chol chol_solve lu lu_solve a b =
     (let* _ := guard (length a =? length b * length b) in let* (m, piv) := lu a in lu_solve m piv b).
 Proof. exact @not_pd_goes_lu. Qed.
@@ -110,7 +113,7 @@ Theorem C01_pd_chol_goes_chol :
          (try_chol : list T -> option (option (list T))) (chol_solve : list T -> list T -> option (list T))
          (lu : list T -> option (list T * list nat)) (lu_solve : list T -> list nat -> list T -> option (list T))
          (a b l : list T),
-    is_pd_pred O a = Some true -> try_chol a = Some (Some l) ->
+    is_positive_definite O a = Some true -> try_chol a = Some (Some l) ->
     solve O try_chol chol_solve lu lu_solve a b =
     (let* _ := guard (length a =? length b * length b) in chol_solve l b).
 Proof. exact @pd_chol_goes_chol. Qed.
@@ -120,7 +123,7 @@ Theorem C01_indefinite_falls_back :
          (try_chol : list T -> option (option (list T))) (chol_solve : list T -> list T -> option (list T))
          (lu : list T -> option (list T * list nat)) (lu_solve : list T -> list nat -> list T -> option (list T))
          (a b : list T),
-    is_pd_pred O a = Some true -> try_chol a = Some None ->
+    is_positive_definite O a = Some true -> try_chol a = Some None ->
     solve O try_chol chol_solve lu lu_solve a b =
     (let* _ := guard (length a =? length b * length b) in let* (m, piv) := lu a in lu_solve m piv b).
 Proof. exact @indefinite_falls_back. Qed.
@@ -182,12 +185,12 @@ Proof. exact @minv_rejects. Qed.
 
 (** ** Every carrier: the fallible Cholesky sweep of the D1 repair *)
 
-(** when [try_cholesky] returns a factor it is exactly the factor of the unchecked sweep (C11's
-    [chol_rows]), and every diagonal entry is the square root of a pivot that passed [d > 0] *)
+(** when the checked sweep (slice form [full = false], Matrix form [full = true]) returns a factor it is
+    exactly the factor of the unchecked sweep ([chol_rows]), and every diagonal entry is the square root of a pivot that passed [d > 0] *)
 Theorem C01_try_chol_rows_some :
-  forall (T : Type) (O : Ops T) (A : list (list T)) (n : nat) (L : list (list T)),
-    try_chol_rows O A n = Some L ->
-    L = chol_rows O false A n /\
+  forall (T : Type) (O : Ops T) (full : bool) (A : list (list T)) (n : nat) (L : list (list T)),
+    try_chol_rows O full A n = Some L ->
+    L = chol_rows O full A n /\
     forall i, i < n -> exists d, ltb O (zero O) d = true /\ ent (zero O) L i i = sqrt O d.
 Proof. exact @try_chol_rows_some. Qed.
 
@@ -196,7 +199,7 @@ Theorem C01_try_cholesky_shape :
   forall (T : Type) (O : Ops T) (a : list T),
     match is_square (length a) with
     | None => try_cholesky O a = None
-    | Some n => if is_symmetric_rel_rows O (unflatten a n n) n
+    | Some n => if is_symmetric_rows O (unflatten a n n) n
                 then exists r, try_cholesky O a = Some r
                 else try_cholesky O a = None
     end.
@@ -205,7 +208,7 @@ Proof. exact @try_cholesky_shape. Qed.
 (** the repaired [cholesky] returns a factor iff [try_cholesky] found one, and panics otherwise *)
 Theorem C01_cholesky_checked_spec :
   forall (T : Type) (O : Ops T) (a l : list T),
-    cholesky_checked O a = Some l <-> try_cholesky O a = Some (Some l).
+    cholesky O a = Some l <-> try_cholesky O a = Some (Some l).
 Proof. exact @cholesky_checked_spec. Qed.
 
 Local Open Scope R_scope.
@@ -215,23 +218,23 @@ Theorem C01_pd_pred_far :
   forall (a : list R) (n i j : nat),
     (n * n)%nat = length a -> (i < n)%nat -> (j < n)%nat ->
     eps RO * Rmax (Rabs (getm a n i j)) (Rabs (getm a n j i)) < Rabs (getm a n i j - getm a n j i) ->
-    is_pd_pred RO a = Some false.
+    is_positive_definite RO a = Some false.
 Proof. exact pd_pred_far. Qed.
 
 Theorem C01_pd_pred_nonpositive_diag :
   forall (a : list R) (n i : nat),
-    (n * n)%nat = length a -> (i < n)%nat -> getm a n i i <= 0 -> is_pd_pred RO a = Some false.
+    (n * n)%nat = length a -> (i < n)%nat -> getm a n i i <= 0 -> is_positive_definite RO a = Some false.
 Proof. exact pd_pred_nonpositive_diag. Qed.
 
 Theorem C01_pd_pred_sym_posdiag :
   forall (a : list R) (n : nat),
     (n * n)%nat = length a -> symmetric a n -> (forall i, (i < n)%nat -> 0 < getm a n i i) ->
-    is_pd_pred RO a = Some true.
+    is_positive_definite RO a = Some true.
 Proof. exact pd_pred_sym_posdiag. Qed.
 
 Theorem C01_pd_pred_true :
   forall (a : list R) (n : nat),
-    (n * n)%nat = length a -> is_pd_pred RO a = Some true ->
+    (n * n)%nat = length a -> is_positive_definite RO a = Some true ->
     (forall i j, (i < n)%nat -> (j < n)%nat ->
        Rabs (getm a n i j - getm a n j i) <= eps RO * Rmax (Rabs (getm a n i j)) (Rabs (getm a n j i))) /\
     (forall i, (i < n)%nat -> 0 < getm a n i i).
@@ -307,7 +310,7 @@ Proof. exact routing_irrelevant. Qed.
 Theorem C01_solve_correct :
   forall (a b : list R) (n : nat),
     (n * n)%nat = length a -> (0 < n)%nat -> length b = n ->
-    (is_pd_pred RO a = Some true -> symmetric a n) ->
+    (is_positive_definite RO a = Some true -> symmetric a n) ->
     (forall m piv, lu RO a = Some (m, piv) -> forall i, (i < n)%nat -> getm m n i i <> 0) ->
     exists x, slice_solve RO a b = Some x /\ solves a n x b.
 Proof. exact solve_correct. Qed.
@@ -315,7 +318,7 @@ Proof. exact solve_correct. Qed.
 Theorem C01_solve_sys_correct :
   forall (a b : list R) (n k : nat),
     (n * n)%nat = length a -> (0 < n)%nat -> length b = (n * k)%nat ->
-    (is_pd_pred RO a = Some true -> symmetric a n) ->
+    (is_positive_definite RO a = Some true -> symmetric a n) ->
     (forall m piv, lu RO a = Some (m, piv) -> forall i, (i < n)%nat -> getm m n i i <> 0) ->
     exists X, slice_solve_sys RO a b = Some X /\ solves_sys a n k X b.
 Proof. exact solve_sys_correct. Qed.
@@ -323,7 +326,7 @@ Proof. exact solve_sys_correct. Qed.
 Theorem C01_invert_correct :
   forall (a : list R) (n : nat),
     (n * n)%nat = length a -> (0 < n)%nat ->
-    (is_pd_pred RO a = Some true -> symmetric a n) ->
+    (is_positive_definite RO a = Some true -> symmetric a n) ->
     (forall m piv, lu RO a = Some (m, piv) -> forall i, (i < n)%nat -> getm m n i i <> 0) ->
     exists X, slice_invert RO a = Some X /\ is_right_inverse a n X.
 Proof. exact invert_correct. Qed.
@@ -385,7 +388,7 @@ Proof. exact matrix_inv_nonsingular. Qed.
 Theorem C01_solve_agrees_with_matrix_solve :
   forall (a b : list R) (n : nat) (m : matrix (T:=R)),
     (n * n)%nat = length a -> (0 < n)%nat -> length b = n ->
-    (is_pd_pred RO a = Some true -> symmetric a n) -> nonsingular a n ->
+    (is_positive_definite RO a = Some true -> symmetric a n) -> nonsingular a n ->
     m = {| nr := n; nc := n; dat := a |} ->
     exists x, slice_solve RO a b = Some x /\ mat_solve_vec RO m b = Some x /\ solves a n x b.
 Proof. exact solve_agrees_with_matrix_solve. Qed.
@@ -393,7 +396,7 @@ Proof. exact solve_agrees_with_matrix_solve. Qed.
 Theorem C01_solve_sys_agrees_with_matrix_solve :
   forall (a b : list R) (n k : nat),
     (n * n)%nat = length a -> (0 < n)%nat -> (0 < k)%nat -> length b = (n * k)%nat ->
-    (is_pd_pred RO a = Some true -> symmetric a n) -> nonsingular a n ->
+    (is_positive_definite RO a = Some true -> symmetric a n) -> nonsingular a n ->
     exists X, slice_solve_sys RO a b = Some X /\
               mat_solve_mat RO {| nr := n; nc := n; dat := a |} {| nr := n; nc := k; dat := b |}
                 = Some {| nr := n; nc := k; dat := X |} /\
@@ -403,7 +406,7 @@ Proof. exact solve_sys_agrees_with_matrix_solve. Qed.
 Theorem C01_invert_agrees_with_matrix_inv :
   forall (a : list R) (n : nat),
     (n * n)%nat = length a -> (0 < n)%nat ->
-    (is_pd_pred RO a = Some true -> symmetric a n) -> nonsingular a n ->
+    (is_positive_definite RO a = Some true -> symmetric a n) -> nonsingular a n ->
     exists X, slice_invert RO a = Some X /\
               mat_inv RO {| nr := n; nc := n; dat := a |} = Some {| nr := n; nc := n; dat := X |} /\
               is_right_inverse a n X.
@@ -470,7 +473,7 @@ Theorem C01_indefinite_solved_by_lu :
     (n * n)%nat = length a -> length b = n -> symmetric a n ->
     (forall i, (i < n)%nat -> 0 < getm a n i i) ->
     (exists x, rsum (fun i => rsum (fun j => nth i x 0 * getm a n i j * nth j x 0) n) n < 0) ->
-    is_pd_pred RO a = Some true /\ slice_solve RO a b = solve_via_lu RO a b.
+    is_positive_definite RO a = Some true /\ slice_solve RO a b = solve_via_lu RO a b.
 Proof. exact indefinite_solved_by_lu. Qed.
 
 (** ** Completeness of the Cholesky route.  For a symmetric positive definite matrix (x^T.A.x > 0 for every
@@ -490,7 +493,7 @@ Theorem C01_spd_takes_cholesky_route :
     (n * n)%nat = length a -> (0 < n)%nat -> length b = n -> symmetric a n ->
     (forall x : nat -> R, (exists i, (i < n)%nat /\ x i <> 0) ->
        0 < rsum (fun p => rsum (fun q => x p * getm a n p q * x q) n) n) ->
-    exists l x, is_pd_pred RO a = Some true /\ try_cholesky RO a = Some (Some l) /\
+    exists l x, is_positive_definite RO a = Some true /\ try_cholesky RO a = Some (Some l) /\
                 slice_solve RO a b = cholesky_solve RO l b /\
                 cholesky_solve RO l b = Some x /\ solves a n x b.
 Proof. exact spd_takes_cholesky_route. Qed.
@@ -504,7 +507,7 @@ Proof. exact fallback_only_if_not_pd. Qed.
 
 (** ** The witness of D1, [[1,2],[2,1]]: accepted by the routing predicate, rejected by the fallible
     Cholesky sweep, solved by the LU route (before the repair: NaN) *)
-Theorem C01_d1_witness_routed_to_cholesky : is_pd_pred RO [1; 2; 2; 1] = Some true.
+Theorem C01_d1_witness_routed_to_cholesky : is_positive_definite RO [1; 2; 2; 1] = Some true.
 Proof. exact d1_witness_pd_pred. Qed.
 
 Theorem C01_d1_witness_not_positive_definite : try_cholesky RO [1; 2; 2; 1] = Some None.
